@@ -543,8 +543,10 @@ REGISTRY["C09"] = {"run": run_c09, "replay": replay_solve}
 
 # ---------------------------------------------------------------------------------------------
 # C03: the solver loop
+import random as _random
 import re as _re
 import warnings as _warnings
+from project import project as project_
 import solvertap
 import designed as _designed
 from decwire import cell as _cell
@@ -644,7 +646,8 @@ def run_c03(ctx):
             sysst = st[-1]["sys"]
             if any(c["cls"] == "PMux" and len(sysst["par"][n]) > 1 for n, c in sysst["comps"].items()):
                 continue
-            descs, dg = _designed.design(sysst, rng)
+            kdes = rng.randrange(1 << 30)
+            descs, dg = _designed.design(sysst, _random.Random(kdes))
             s = _designed.build_designed(descs)
             c = record(s, {}, "designed")
             c["has_design"] = True
@@ -656,7 +659,10 @@ def run_c03(ctx):
                 # state: nothing of the first solution may survive - the second one must be found just the same
                 try:
                     from model import build as _build
-                    descs2, dg2 = _designed.design(sysst, rng)
+                    # half of the time the SAME design with every current 50 times smaller (series resistances 50 times
+                    # larger): anything kept from the first solution is 50 times too heavy for the new system
+                    descs2, dg2 = (_designed.design(sysst, _random.Random(kdes), iscale=0.02) if rng.random() < 0.5
+                                   else _designed.design(sysst, rng))
                     with _warnings.catch_warnings():
                         _warnings.simplefilter("ignore")
                         for d in descs2:
@@ -666,6 +672,16 @@ def run_c03(ctx):
                     c2["design"] = [{"name": n, "vin": _cell(d["vin"]), "vout": _cell(d["vout"]), "iin": _cell(d["iin"]),
                                      "iout": _cell(d["iout"])} for n, d in dg2.items()]
                     c2["after_edit"] = "re-parameterised in place to a second designed state"
+                    if c2["outcome"] != "ok":
+                        # does a system built from scratch with these parameters solve?  (tells a consequence of the
+                        # in-place history from finding F19, which a fresh system shows as well)
+                        try:
+                            with _warnings.catch_warnings():
+                                _warnings.simplefilter("ignore")
+                                rebuild(project_(s)).solve()
+                            c2["fresh_outcome"] = "ok"
+                        except Exception:
+                            c2["fresh_outcome"] = "exc"
                 except Exception:
                     pass
             if nd >= n_des:
